@@ -449,6 +449,24 @@ def main():
             return BacktrackSolver(problem, **k)
 
         problem = build(spec)
+        if spec.get("fix_solution") is not None:
+            # "the model accepts a known valid object": every variable is fixed to the object's value, within the
+            # model's OWN domains (they are never enlarged); the solver must then report exactly this one solution
+            fs = spec["fix_solution"]
+            for v, val in enumerate(fs):
+                d = problem.dom_indices_lst[v]
+                sv = val - problem.dom_offsets_lst[v]
+                lo, hi = problem.shr_domains_lst[d]
+                if not (lo <= sv <= hi):
+                    out["rejected_by_domains"] = f"variable {v} = {val} is outside the model's domain [{lo + problem.dom_offsets_lst[v]},{hi + problem.dom_offsets_lst[v]}]"
+                    break
+                problem.shr_domains_lst[d] = [sv, sv]
+            if out.get("rejected_by_domains"):
+                out["count"] = 0
+                out["distinct"] = 0
+                out["invalid"] = None
+                print(json.dumps(out), flush=True)
+                os._exit(0)
         rw = spec.get("rewrite")
         if rw:  # C13 at scale: meaning-preserving rewrites of a shipped model
             import random
